@@ -124,10 +124,10 @@ const TABLES: &[Table] = &[
     Table { name: "mixed:ab|cd-long|ce-short", nkeys: 5, chords: &[0b00011, 0b01100, 0b10100], t: 30, ts: &[12, 30, 6], gaps: &[0, 1, 5, 7, 13], ov: false },
     // overlapping-activations family only (defchordsv2): chords that can be held side by side, disjoint
     // and with shared keys (an all-released chord stays active on the keys that are still down)
-    Table { name: "ov:two-pairs", nkeys: 4, chords: &[0b00011, 0b01100], t: 20, ts: &[], gaps: &[], ov: true },
+    Table { name: "ov:two-pairs", nkeys: 4, chords: &[0b00011, 0b01100], t: 60, ts: &[], gaps: &[], ov: true },
     Table { name: "ov:shared", nkeys: 4, chords: &[0b00011, 0b00110, 0b01001], t: 20, ts: &[], gaps: &[], ov: true },
     Table { name: "ov:ring", nkeys: 5, chords: &[0b00011, 0b00110, 0b01100, 0b11000, 0b10001], t: 20, ts: &[], gaps: &[], ov: true },
-    Table { name: "ov:pairs+e", nkeys: 5, chords: &[0b00011, 0b01100, 0b10001, 0b10100], t: 20, ts: &[], gaps: &[], ov: true },
+    Table { name: "ov:pairs+e", nkeys: 5, chords: &[0b00011, 0b01100, 0b10001, 0b10100], t: 60, ts: &[], gaps: &[], ov: true },
     Table { name: "ov:triple+pairs", nkeys: 5, chords: &[0b00111, 0b11000, 0b01001, 0b10010], t: 20, ts: &[], gaps: &[], ov: true },
     Table { name: "ov:sub+super+pair", nkeys: 5, chords: &[0b00011, 0b00111, 0b11000], t: 20, ts: &[], gaps: &[], ov: true },
 ];
